@@ -328,7 +328,9 @@ def skip_for_rounding(case):
 def in_range(case):
     """Hypotheses of the property: weights, confidences >= 0; thresholds in the stated ranges."""
     for v in case["voters"]:
-        if v["w"] < 0 or v["rel"] < 0 or (v["c"] is not None and v["c"] < 0):
+        # a reliability_score the INSTANCE has computed itself (update_reliability / update_all_reliability) is no input:
+        # the caller's numbers are in range, so the instance must decide as the property says whatever it has learned
+        if v["w"] < 0 or (v["rel"] < 0 and not v.get("learned")) or (v["c"] is not None and v["c"] < 0):
             return False
     t = case["thr"]
     if t is None:
@@ -556,7 +558,7 @@ class C06(Check):
     HEADER = "From Verif Require Import C06.Model."
     RUN = "run_case"
     CASE_TYPE = "anycase"
-    N_QUICK = 2300
+    N_QUICK = 1800
     N_THOROUGH = 30000
     RULE = ("a case is a HISTORY on one QuorumSensing/EmergencyQuorum instance: 1-4 run_vote calls with add_agent, remove_agent, "
             "set_agent_weight, set_strategy, min_voters assignment, update_reliability, update_all_reliability, assignment of the "
@@ -625,6 +627,19 @@ class C06(Check):
             "everybody permits; thorough: 1..3 voters) x 7 strategies + EmergencyQuorum x one number replaced by nan / inf (a weight, "
             "a confidence, thorough: a reliability, or the threshold); random: 1..5 voters, every number replaced with probability "
             "0.15..0.5; a vote is skipped when its finite deciding quantity is within 1e-9 of a finite threshold (Bayesian only). "
+            "HANDLERS THAT CALL BACK (op revote): a run_vote made while on_quorum_reached / on_quorum_failed handlers are installed that put "
+            "a follow-up proposal - with ballots of its own - to the SAME object before the call that invoked them has returned (a handler "
+            "already at work only notes that it was invoked); both calls are reported (what run_vote returned to the caller, what it "
+            "returned to the handler, the results handed to the handlers, the get_vote_history() entries) and each is judged against the "
+            "ballots cast in THAT call; exhaustive: everybody blocks (permits), the handler of that outcome asks again and everybody / one "
+            "member votes the other way, then a plain vote, 7 strategies + EmergencyQuorum, 3 (thorough 1..4) voters; random: 1-3 such "
+            "calls with handlers on either / both / no side, plain votes, colony and strategy changes, gradings and a copy in between. "
+            "LONG-LIVED GRADING: 2..15 rounds of (vote; update_all_reliability) in which one member keeps dissenting, update_reliability "
+            "repeated up to 15 times on one member (one vote graded many times), then weights 0.25..25 re-assigned and 2-4 mixed ballots, "
+            "mostly WEIGHTED / CONFIDENCE / BAYESIAN; exhaustive: k = 5, 10, 11, 12 (thorough 1..20) rounds with member 0 on the wrong side, "
+            "member 0 given weight 8 / 25, then every mixed ballot of {permit, block}^3; a reliability_score the instance has computed "
+            "itself is NOT an input: such a vote is judged in full (criteria, and the metamorphic monitor: every block turned into a "
+            "permit, every permit voter's weight raised by 0.5 and to 4w+8) whatever sign the instance has given it. "
             "non-trivial = at least two different vote kinds, a failed voter or an exact tie; distinct by case content")
     LEVEL_TEXT = ("Coq theorems over all ballots (any number of voters), rational weights/confidences >= 0 and thresholds in the stated "
                   "ranges about a hand-written Gallina model of _aggregate_votes, the seven aggregators, vote collection and "
@@ -651,7 +666,13 @@ class C06(Check):
                   "(weights, reliabilities, confidences, threshold in Q + {nan, +inf, -inf}, IEEE comparisons): no permit vote => never PERMIT for "
                   "every number and every threshold that is not negative (nan and +inf included), a nan / +inf threshold is never exceeded, below "
                   "min_voters is never PERMIT, counts are exact, the head-counting strategies never read a weight or confidence, and on finite numbers "
-                  "the extended model is the rational model. The model is tied to the code by evaluating it "
+                  "the extended model is the rational model; over all histories in which HANDLERS CALL BACK (an on_quorum_* handler puts a "
+                  "follow-up proposal to the object that invoked it before that call has returned): every vote, the caller's or a handler's, "
+                  "is the aggregation of the ballots cast in that call - the outer call returns its own result, the nested call exists exactly "
+                  "when a handler is installed for the outer outcome and returns its own; and however long an instance GRADES its voters, "
+                  "reliability_score and weight of every member and the weight of every ballot of every vote stay >= 0 when the caller's own "
+                  "numbers are, so what the instance learns never breaks the hypotheses of the criteria and of the monotonicity theorems. "
+                  "The model is tied to the code by evaluating it "
                   "in Coq on every generated ballot the implementation ran.")
     LEVEL_NOTE = ("Trusts: Coq kernel+VM; the correspondence harness; exact-rational idealisation of binary64 arithmetic (cases within 1e-9 "
                   "of a decision boundary are skipped unless binary64 is exact there). Axioms: none (Print Assumptions: closed). "
@@ -694,7 +715,7 @@ class C06(Check):
                "returned (no duration is compared); real BioAgents are never delayed; the allowance of the hang watchdog is wall-clock",
                "run_vote's context, the 1000-entry history cap (the model keeps only the LAST recorded result, which is all "
                "that is ever read back), processing_time_ms, the score fields of QuorumResult, `silent` and the read-only accessors are "
-               "not modelled (no verdict reads them; histories exceed the cap and call the accessors); callbacks are modelled by what they do to control flow (absent / return / raise), a voter's "
+               "not modelled (no verdict reads them; histories exceed the cap and call the accessors); callbacks are modelled by what they do to control flow (absent / return / raise) or, re-entrant handlers, as calling run_vote once on the object that invoked them (a re-entrant call is modelled as the call made right after the outer one: run_vote writes everything before it invokes a callback; nesting deeper than one call, and handlers that mutate the colony or the configuration, are not modelled), a voter's "
                "BaseException as abandoning the call at that voter; the console block of a non-silent instance is read with two regular "
                "expressions (counts line, QUORUM REACHED/FAILED) and ignored where they do not match"]
     ASSUMPTIONS = ["weights, reliabilities, confidences are finite and >= 0; ratio thresholds in [0,1); count thresholds >= 0 "
@@ -705,7 +726,8 @@ class C06(Check):
                    "unanimous => PERMIT is demanded for THRESHOLD only when the needed count does not exceed the permit votes; for BAYESIAN it is "
                    "demanded at every threshold in [0,1) and its failure for custom thresholds > 0.5 with posterior <= threshold is the known "
                    "finding C06/unanimous-bayesian-high-threshold (unopposed ballots with abstainers are demanded only for thresholds <= 0.5)",
-                   "colony membership and configuration do not change during run_vote (callbacks and voter agents do not call back into the instance)",
+                   "colony membership and configuration do not change during run_vote: voter agents do not call back into the instance, and a "
+                   "handler calls back only to put ONE follow-up proposal to the object that invoked it (a handler invoked by that nested call returns)",
                    "one caller: run_vote calls on one instance are made one after the other (never from two threads at once); voters' delays are >= 0; "
                    "a member whose agent has not answered when run_vote returns has cast no ballot in that call (it may only be reported as a "
                    "zero-confidence abstention), every other member's ballot is the one its agent returned in that call"]
@@ -1179,6 +1201,146 @@ class C06(Check):
         case["steps"] = steps
         return case
 
+    # ------------------------------------------------------------------ handlers that call back; long-lived grading
+    def _reentrant_histories(self):
+        """A run_vote whose on_quorum_failed / on_quorum_reached handler puts a follow-up proposal to the SAME object
+        before the call has returned: everybody blocks (permits), the handler of that outcome asks again and everybody
+        (one member only) votes the other way; then a plain vote; every strategy and EmergencyQuorum, 3 voters (thorough:
+        1..4)."""
+        out = []
+        cfgs = [(st, False) for st in STRATS] + [("threshold", True)]
+        for (strat, em) in cfgs:
+            for n in ((3,) if self.tier == "quick" else (1, 2, 3, 4)):
+                for first in ("BLOCK", "PERMIT"):
+                    other = "PERMIT" if first == "BLOCK" else "BLOCK"
+                    for inner in ("all", "one"):
+                        a = [{"act": first, "c": 1.0}] * n
+                        b = [{"act": other if inner == "all" or k == 0 else first, "c": 1.0} for k in range(n)]
+                        side = "on_failed" if first == "BLOCK" else "on_reached"
+                        st = {"op": "revote", "script": a, "on_reached": None, "on_failed": None}
+                        st[side] = b
+                        if inner == "one":                       # handlers on both sides
+                            st["on_reached" if side == "on_failed" else "on_failed"] = a
+                        out.append({"strategy": strat, "thr": None, "min_voters": 1, "emergency": em, "tracking": True,
+                                    "voters": [{"w": 1.0, "rel": 1.0} for _ in range(n)], "exact": True,
+                                    "steps": [st, {"op": "vote", "script": b}]})
+        return out
+
+    def _reentrant_case(self, rng):
+        """A random history with re-entrant handlers: 1-3 run_vote calls whose handlers (either side, both, none) ask the
+        same object a follow-up proposal with ballots of their own; plain votes, colony / strategy changes, gradings and
+        a copy in between."""
+        exact = rng.random() < 0.7
+        base = self._grid_case(rng, exact)
+        base.pop("callbacks", None)
+        base.pop("verbose", None)
+        ids = list(range(len(base["voters"])))
+        nxt = len(ids)
+        base["voters"] = [{"w": v["w"], "rel": v["rel"]} for v in base["voters"]]
+        base["tracking"] = True
+        acts = ["PERMIT", "PERMIT", "PERMIT", "EXECUTE", "BLOCK", "BLOCK", "BLOCK", "DEFER", "ABSTAIN", "RAISE"]
+
+        def script():
+            style = rng.random()
+            return [{"act": "PERMIT" if style < 0.3 else ("BLOCK" if style < 0.6 else rng.choice(acts)),
+                     "c": rng.choice(GRID[:5] + [1.0, 1.0, None]) if exact else rng.choice([round(rng.uniform(0, 1), 2), 1.0, None])}
+                    for _ in ids]
+
+        steps, nobj = [], 1
+        for k in range(rng.choice([1, 2, 2, 3])):
+            st = {"op": "revote", "script": script(),
+                  "on_reached": script() if rng.random() < 0.6 else None,
+                  "on_failed": script() if rng.random() < 0.8 else None}
+            if nobj > 1 and rng.random() < 0.5:
+                st["on"] = 1
+            steps.append(st)
+            for _ in range(rng.choice([0, 1, 1, 2])):
+                r = rng.random()
+                if r < 0.3:
+                    steps.append({"op": "vote", "script": script()})
+                elif r < 0.45 and len(ids) < 7:
+                    ids.append(nxt)
+                    steps.append({"op": "add", "id": nxt, "w": rng.choice(GRID + [1.0]) if exact else round(rng.uniform(0, 3), 2)})
+                    nxt += 1
+                elif r < 0.55 and len(ids) > 1:
+                    i = rng.choice(ids)
+                    ids.remove(i)
+                    steps.append({"op": "remove", "id": i})
+                elif r < 0.7:
+                    sg = rng.choice(STRATS)
+                    steps.append({"op": "strategy", "strategy": sg, "thr": self._thr_for(rng, sg, len(ids), exact)})
+                elif r < 0.85:
+                    steps.append({"op": "rel_all", "decision": rng.choice(["permit", "block"])})
+                elif nobj == 1:
+                    steps.append({"op": "copy", "of": 0})
+                    nobj = 2
+        base["steps"] = steps
+        return base
+
+    def _grading_case(self, rng):
+        """A LONG-LIVED quorum that grades its voters: 2..15 rounds of (vote; update_all_reliability(decision)) in which one
+        member mostly dissents from what turns out right, and / or update_reliability(name, ok) repeated up to 15 times;
+        then member weights are re-assigned (0.25 .. 25) and two to four votes with mixed ballots follow - mostly under
+        the strategies that read weights (WEIGHTED, CONFIDENCE, BAYESIAN)."""
+        n = rng.choice([2, 3, 3, 3, 4])
+        strat = rng.choice(["weighted", "weighted", "weighted", "confidence", "confidence", "bayesian", "bayesian"] + STRATS)
+        thr = None if rng.random() < 0.7 else self._thr_for(rng, strat, n, True)
+        case = {"strategy": strat, "thr": thr, "min_voters": 1, "emergency": False, "tracking": rng.random() < 0.95,
+                "voters": [{"w": rng.choice([1.0, 1.0, 1.0, 0.5, 2.0]), "rel": rng.choice(RELS)} for _ in range(n)],
+                "exact": True}
+        odd = rng.randrange(n)                                   # the member that keeps being on the wrong side
+        right = rng.choice(["PERMIT", "PERMIT", "BLOCK"])
+        wrong = "BLOCK" if right == "PERMIT" else "PERMIT"
+        steps = []
+        rounds = rng.choice([0, 2, 4, 8, 11, 11, 12, 13, 15])
+        for _ in range(rounds):
+            slip = rng.random() < 0.1
+            steps.append({"op": "vote", "script": [{"act": (right if slip else wrong) if k == odd else
+                                                    (right if rng.random() < 0.9 else wrong), "c": 1.0} for k in range(n)]})
+            steps.append({"op": "rel_all", "decision": right.lower()})
+        if rounds == 0 or rng.random() < 0.35:
+            if rounds == 0:
+                steps.append({"op": "vote", "script": [{"act": "PERMIT", "c": 1.0}] * n})
+            steps.append({"op": "rel", "id": odd, "ok": False, "times": rng.choice([1, 3, 10, 11, 12, 15])})
+            if rng.random() < 0.4:
+                steps.append({"op": "rel", "id": rng.randrange(n), "ok": True, "times": rng.choice([1, 2, 5])})
+        for k in range(n):
+            if rng.random() < 0.7:
+                steps.append({"op": "weight", "id": k, "w": rng.choice([0.25, 0.5, 1.0, 2.0, 3.0, 8.0, 25.0])})
+        if rng.random() < 0.25:
+            sg = rng.choice(["weighted", "confidence", "bayesian"])
+            steps.append({"op": "strategy", "strategy": sg, "thr": None})
+        for _ in range(rng.choice([2, 3, 4])):
+            steps.append({"op": "vote", "script": [{"act": rng.choice(["PERMIT", "PERMIT", "BLOCK", "BLOCK", "ABSTAIN"]),
+                                                    "c": rng.choice([1.0, 1.0, 1.0, 0.5, None])} for _ in range(n)]})
+        case["steps"] = steps
+        return case
+
+    def _grading_histories(self):
+        """k = 1, 5, 10, 11, 12, 20 rounds of (member 0 blocks, the others permit; update_all_reliability(PERMIT)), then
+        member 0 is given weight 1 / 8 / 25 and every ballot of {permit, block}^3 is voted on: WEIGHTED, CONFIDENCE,
+        BAYESIAN (quick: k = 11, 12 and WEIGHTED, CONFIDENCE only for the other k)."""
+        out = []
+        quick = self.tier == "quick"
+        for strat in ("weighted", "confidence", "bayesian"):
+            for k in (1, 5, 10, 11, 12, 20):
+                if quick and (k not in (11, 12) if strat == "bayesian" else k in (1, 20)):
+                    continue
+                for w0 in ((8.0, 25.0) if quick else (1.0, 8.0, 25.0)):
+                    steps = []
+                    for _ in range(k):
+                        steps += [{"op": "vote", "script": [{"act": "BLOCK", "c": 1.0}, {"act": "PERMIT", "c": 1.0},
+                                                            {"act": "PERMIT", "c": 1.0}]},
+                                  {"op": "rel_all", "decision": "permit"}]
+                    steps += [{"op": "weight", "id": 0, "w": w0}, {"op": "weight", "id": 2, "w": 3.0 if w0 > 8 else 0.5}]
+                    for combo in itertools.product(["PERMIT", "BLOCK"], repeat=3):
+                        if quick and combo[0] == combo[1] == combo[2]:
+                            continue
+                        steps.append({"op": "vote", "script": [{"act": a, "c": 1.0} for a in combo]})
+                    out.append({"strategy": strat, "thr": None, "min_voters": 1, "emergency": False, "tracking": True,
+                                "voters": [{"w": 1.0, "rel": 1.0} for _ in range(3)], "exact": True, "steps": steps})
+        return out
+
     # ------------------------------------------------------------------ copies of a live instance
     def _copy_histories(self):
         """A quorum configured with min_voters = k (constructor argument, or assigned on the live object - the only way
@@ -1366,9 +1528,13 @@ class C06(Check):
             k = rng.random()
             if k < 0.04:
                 c = self._share_case(rng)
+            elif k < 0.065:
+                c = self._reentrant_case(rng)
             elif k < 0.09:
-                c = self._x_case(rng)
+                c = self._grading_case(rng)
             elif k < 0.13:
+                c = self._x_case(rng)
+            elif k < 0.16:
                 c = self._copy_case(rng)
             elif k < 0.27:
                 c = self._grid_case(rng, True)
@@ -1429,6 +1595,8 @@ class C06(Check):
         out += [c for c in self._cap_histories() if not self._near(c)]
         out += [c for c in self._copy_histories() if not self._near(c)]
         out += [c for c in self._cap_copy_histories() if not self._near(c)]
+        out += [c for c in self._reentrant_histories() if not self._near(c)]
+        out += [c for c in self._grading_histories() if not self._near(c)]
         out += self._x_exhaustive()
         timed = self._timed_histories()
         self._prefetch(timed)
@@ -1575,6 +1743,7 @@ class C06(Check):
                 p.agent = _Stub(p.agent.name, "RAISE", None)
             p.weight = v["w"]
             p.reliability_score = v["rel"]
+        assigned = {id(p): p.reliability_score for p in q.colony}   # the reliability each member was GIVEN (1.0 by add_agent)
         objs, givens, origin = [q], [given], ["constructed"]   # the objects, what their caller configured, where they come from
         votes, vote_steps, scripts, copies = [], [], {}, {}
         rows = []                # in order: ("vote", index into votes) | ("copy", deep, an object was created)
@@ -1594,6 +1763,8 @@ class C06(Check):
                 p.agent.act, p.agent.conf = b["act"], b["c"]
                 p.agent.delay, p.agent.call = float(b.get("delay") or 0.0), state["ncalls"]
                 snap_voters.append({"act": b["act"], "c": b["c"], "w": p.weight, "rel": p.reliability_score})
+                if p.reliability_score != assigned.get(id(p), 1.0):
+                    snap_voters[-1]["learned"] = True     # the instance's own grading, not an input
                 if b.get("delay"):
                     snap_voters[-1]["delay"] = b["delay"]
                 if p.agent.inner is not None:
@@ -1652,6 +1823,101 @@ class C06(Check):
             votes.append((snap, t))
             vote_steps.append(si)
 
+        def ask_re(q, given, who, si, st):
+            """One run_vote call on object q made while RE-ENTRANT handlers are installed: on_quorum_reached /
+            on_quorum_failed put a follow-up proposal (st["on_reached"] / st["on_failed"]: the script of that vote, None:
+            no handler on that side) to the SAME object before the call that invoked them has returned; a handler that is
+            already at work only notes that it was invoked.  Two votes are reported - in the order in which their results
+            were recorded: the outer call's (what run_vote returned to the harness) and the nested call's (what run_vote
+            returned to the handler), each judged against the ballots cast in THAT call."""
+            depth = {"d": 0}
+            invoked = []                 # (depth, which, result handed over)
+            nested = []                  # (snap, t) of the nested call
+            seen_outer = {}
+
+            def prepare(script, tag):
+                snap_voters = []
+                for k, p in enumerate(q.colony):
+                    b = script[k] if k < len(script) else {"act": "RAISE", "c": None}
+                    p.agent.act, p.agent.conf, p.agent.delay, p.agent.call = b["act"], b["c"], 0.0, state["ncalls"]
+                    snap_voters.append({"act": b["act"], "c": b["c"], "w": p.weight, "rel": p.reliability_score})
+                    if p.reliability_score != assigned.get(id(p), 1.0):
+                        snap_voters[-1]["learned"] = True
+                snap = {"strategy": given["strategy"], "thr": given["thr"], "min_voters": given["min_voters"],
+                        "emergency": False, "voters": snap_voters, "call": tag,
+                        "exact": bool(case.get("exact")) and all(_dyadic(x["rel"]) for x in snap_voters)}
+                if who != "object 0":
+                    snap["object"] = who
+                return snap, list(q.colony)
+
+            def handler(which, script):
+                if script is None:
+                    return None
+
+                def cb(result):
+                    invoked.append((depth["d"], which, _result_dict(result)))
+                    if depth["d"] > 0:
+                        return                                # at work already: the follow-up is being voted on
+                    hist = q.get_vote_history(1)
+                    if hist:
+                        seen_outer["recorded"] = _result_dict(hist[-1])   # the entry the outer call has just added
+                    seen_outer["answered"] = sum(state["ncalls"] in p.agent.done for p in polled_outer)
+                    state["ncalls"] += 1
+                    depth["d"] += 1
+                    try:
+                        snap2, polled2 = prepare(script, f"made by the on_quorum_{which} handler while the call before it "
+                                                         f"(on the same object) had not returned")
+                        before2 = q.get_vote_history(1)
+                        r2 = q.run_vote(PROMPTS["plain"] + " (follow-up)")
+                        t2 = _result_dict(r2)
+                        t2["end"] = "returned"
+                        t2["answered"] = sum(state["ncalls"] in p.agent.done for p in polled2)
+                        t2["callbacks"] = [(w_, r_) for (d_, w_, r_) in invoked if d_ == 1]
+                        hist2 = q.get_vote_history(1)
+                        if hist2 and (not before2 or hist2[-1] is not before2[-1]):
+                            t2["recorded"] = _result_dict(hist2[-1])
+                        nested.append((snap2, t2))
+                    finally:
+                        depth["d"] -= 1
+                return cb
+
+            snap, polled_outer = prepare(st["script"], "the outer call: its handlers call run_vote on the same object")
+            q.on_quorum_reached = handler("reached", st.get("on_reached"))
+            q.on_quorum_failed = handler("failed", st.get("on_failed"))
+            before = q.get_vote_history(1)
+            last_before = before[-1] if before else None
+            outer_call = state["ncalls"]
+            limit = HANG_S if self._hangs < 3 else HANG_LATER
+            try:
+                with self._quiet(io.StringIO()):
+                    r = self._call(lambda: q.run_vote(PROMPTS["plain"]), limit)
+                t = _result_dict(r)
+                t["end"] = "returned"
+            except ZeroDivisionError:
+                t = {"raised": "ZeroDivisionError"}
+            except common.Hang:
+                t = {"hang": True, "limit": limit, "needs": 0.0}
+                state["hang"] = True
+                self._hangs += 1
+            except Exception as e:              # noqa: a report of its own
+                t = {"raised": type(e).__name__}
+            finally:
+                if not state["hang"]:
+                    q.on_quorum_reached = q.on_quorum_failed = None
+            t["answered"] = seen_outer.get("answered", sum(outer_call in p.agent.done for p in polled_outer))
+            t["callbacks"] = [(w_, r_) for (d_, w_, r_) in invoked if d_ == 0]
+            if "recorded" in seen_outer:
+                t["recorded"] = seen_outer["recorded"]
+            elif not nested:
+                hist = q.get_vote_history(1)
+                if hist and hist[-1] is not last_before:
+                    t["recorded"] = _result_dict(hist[-1])
+            state["ncalls"] += 1
+            for sn, tt in [(snap, t)] + nested:
+                rows.append(("vote", len(votes)))
+                votes.append((sn, tt))
+                vote_steps.append(si)
+
         for si, st in enumerate(steps_of(case)):
             if state["hang"]:
                 break
@@ -1687,9 +1953,13 @@ class C06(Check):
                         continue                              # nobody to interrupt: no call is made
                     ask(q, given, origin[on] if on else "object 0", si, rep, st, op)
                 continue
+            if op == "revote":
+                ask_re(q, given, origin[on] if on else "object 0", si, st)
+                continue
             with self._quiet(sink):
                 if op == "add":
                     prof = q.add_agent(agent_name(st["id"]), st["w"])
+                    assigned[id(prof)] = prof.reliability_score
                     prof.agent = _Stub(prof.agent.name, "REAL", None, prof.agent) if st.get("real") \
                         else _Stub(prof.agent.name, "RAISE", None)
                 elif op == "remove":
@@ -1703,7 +1973,8 @@ class C06(Check):
                     q.min_voters = st["k"]
                     given["min_voters"] = st["k"]
                 elif op == "rel":
-                    q.update_reliability(agent_name(st["id"]), st["ok"])
+                    for _ in range(int(st.get("times", 1))):
+                        q.update_reliability(agent_name(st["id"]), st["ok"])
                 elif op == "rel_all":
                     q.update_all_reliability(Q.VoteType(st["decision"]))
                 elif op == "callbacks":
@@ -2045,7 +2316,12 @@ class C06(Check):
             elif op == "min_voters":
                 ops.append((on, f"OSetMinVoters {cz(st['k'])}"))
             elif op == "rel":
-                ops.append((on, f"OUpdateRel {cz(st['id'])} {'true' if st['ok'] else 'false'}"))
+                ops += [(on, f"OUpdateRel {cz(st['id'])} {'true' if st['ok'] else 'false'}")] * int(st.get("times", 1))
+            elif op == "revote":
+                def h(sc):
+                    return "None" if sc is None else f"(Some (script_of {clist([self._coq_beh(b) for b in sc])}))"
+                ops.append((on, f"RVOTE (script_of {clist([self._coq_beh(b) for b in st['script']])}) "
+                                f"{h(st.get('on_reached'))} {h(st.get('on_failed'))}"))
             elif op == "rel_all":
                 ops.append((on, f"OUpdateAll {st['decision'].capitalize()}"))
             else:
@@ -2054,10 +2330,26 @@ class C06(Check):
         # operations without a clock are wrapped: TOp (...); operations are addressed to an object: WOn i (...)
         # (a history on the constructed object alone is written on0 [...], i.e. map (WOn 0))
         single = all(on == 0 for on, _o in ops)
+        timeout = case.get("timeout", 5.0 if case.get("emergency") else 30.0)
 
         def top(o):
             return o if o.startswith(("TVote ", "TInterrupted ", "TSetTimeout ")) else f"TOp ({o})"
 
+        if any(o.startswith("RVOTE ") for _on, o in ops):
+            # a history with re-entrant handlers: every element is an rop
+            relems = []
+            for on, o in ops:
+                if o.startswith("REPEAT "):
+                    n, term = o[len("REPEAT "):].split(" ", 1)
+                    relems += [f"RPlain (WOn {on}%nat (TOp {term}))"] * int(n.rstrip("%nat"))
+                elif o.startswith("RVOTE "):
+                    relems.append(f"RVote {on}%nat {o[len('RVOTE '):]}")
+                elif on is None:
+                    relems.append(f"RPlain ({o})")
+                else:
+                    relems.append(f"RPlain (WOn {on}%nat ({top(o)}))")
+            return "CReentrant " + ctuple(cfg, "true" if case.get("tracking", True) else "false", cq(Fraction(timeout)), ws,
+                                          clist(relems))
         parts, cur = [], []
         for on, o in ops:
             if o.startswith("REPEAT "):
@@ -2072,7 +2364,6 @@ class C06(Check):
                 cur.append(top(o) if single else f"WOn {on}%nat ({top(o)})")
         if cur or not parts:
             parts.append(clist(cur))
-        timeout = case.get("timeout", 5.0 if case.get("emergency") else 30.0)
         body = "(" + " ++ ".join(parts) + ")"
         return "CWorld " + ctuple(cfg, "true" if case.get("tracking", True) else "false", cq(Fraction(timeout)), ws,
                                   f"(on0 {body})" if single else body)
@@ -2112,6 +2403,12 @@ class C06(Check):
                     cfg = f"{snap['strategy']}, threshold {snap['thr']}, min_voters {snap['min_voters']}, {len(snap['voters'])} voters"
                     if snap.get("object"):
                         cfg = f"asked: the {snap['object']}, configured by its caller as " + cfg
+                    if snap.get("call"):
+                        cfg += f"; this call is {snap['call']}"
+                    learned = [i for i, x in enumerate(snap["voters"]) if x.get("learned")]
+                    if learned:
+                        cfg += (f"; reliability_score of voter(s) {learned} is the instance's own grading: "
+                                f"{[snap['voters'][i]['rel'] for i in learned]}")
                     late = [i for i, x in enumerate(snap["voters"]) if x["act"] == "LATE"]
                     if late:
                         cfg += f"; the agent(s) of voter(s) {late} had not answered when the call returned: no ballot, must be zero-confidence abstentions"
@@ -2232,12 +2529,17 @@ class C06(Check):
         # monotonicity (metamorphic, on the implementation)
         if meta and permit and not near:
             tried = 0
+            first_p = next((j for j, x in enumerate(case["voters"]) if KIND[x["act"]] == "P" and x["act"] not in FAILED), None)
             for i, v in enumerate(case["voters"]):
                 muts = []
                 if KIND[v["act"]] == "B" and v["act"] not in FAILED:
                     muts.append(("C06/monotone-flip", dict(v, act="PERMIT")))
                 if KIND[v["act"]] == "P" and v["act"] not in FAILED:
                     muts.append(("C06/monotone-weight", dict(v, w=v["w"] + 0.5)))
+                    if not muts[:-1] and (i == first_p or any(x.get("learned") for x in case["voters"])):
+                        # raised a little, and raised a lot (the first permit voter of every ballot; every permit
+                        # voter when the instance has graded its members)
+                        muts.append(("C06/monotone-weight", dict(v, w=4 * v["w"] + 8.0)))
                     if v["c"] is not None and v["c"] < 1.0:
                         muts.append(("C06/monotone-confidence", dict(v, c=min(1.0, v["c"] + 0.25))))
                 for sig, v2 in muts:
@@ -2396,7 +2698,7 @@ class C06(Check):
         if case.get("real_agents_starved"):
             return case
         if "steps" in case:
-            steps = common.shrink_list(case["steps"], lambda xs: any(x["op"] in ("vote", "interrupt") for x in xs) and pred({**case, "steps": xs}))
+            steps = common.shrink_list(case["steps"], lambda xs: any(x["op"] in ("vote", "interrupt", "revote") for x in xs) and pred({**case, "steps": xs}))
             small = {**case, "steps": steps}
             # scripts may now be longer than the colony they address: cut them to the colony size at that vote
             try:
